@@ -37,13 +37,11 @@ def check(src, rep):
     closing = [a for a, v in CM.field_inits.items() if isinstance(v, ast.Call) and ast.unparse(v.func).split(".")[-1] == "Event"]
     rep.require(len(closing) == 1, f"cannot bind the closing event field: {closing}")
     CLOSING = closing[0]
-    tc = None
-    for name, f in CM.methods.items():
-        if isinstance(f.node, ast.AsyncFunctionDef) and any(isinstance(n, ast.Await) and "factory" in ast.unparse(n) for n in ast.walk(f.node)):
-            tc = f
+    from sa.asyncts import connect_coroutine
+    tc = connect_coroutine(CM)
     rep.require(tc is not None, "cannot find the coroutine awaiting the connection factory")
     conn = None
-    for n in ast.walk(tc.node):
+    for n in (x for f_ in CM.methods.values() for x in ast.walk(f_.node)):
         if isinstance(n, ast.Assign) and isinstance(n.value, ast.Await) and "factory" in ast.unparse(n.value) and isinstance(n.targets[0], ast.Attribute):
             conn = n.targets[0].attr
     rep.require(conn is not None, "cannot bind the connection field")
@@ -94,9 +92,14 @@ def check(src, rep):
                     members = [m_ for a in e.args for m_ in ts.names_in(a, st)]
                     ok_aw = bool(members) and all(st.get(m_) in SETTLED for m_ in members)
                 elif isinstance(e, ast.Call) and call_name(e) in helpers and (helpers[call_name(e)] or call_name(e) in loop_unit_names):
-                    ok_aw = True  # settle helper (cancelled tasks finish promptly) or another part of the loop, judged on its own
+                    ok_aw = True
+                elif isinstance(e, ast.Call) and call_name(e) not in ("sleep", "wait_for") and (helpers.get(call_name(e)) is None) and \
+                        any(isinstance(x, ast.Name) and x.id in st for a_ in e.args for x in ast.walk(a_)):
+                    ok_aw = None  # an unknown callee that is given the handles: not judged here (reported as escape)  # settle helper (cancelled tasks finish promptly) or another part of the loop, judged on its own
                 elif isinstance(e, ast.Name) and st.get(e.id) in SETTLED:
                     ok_aw = True
+                if ok_aw is None:
+                    return
                 if not ok_aw:
                     nonlocal_find.append(1)
                     rep.violation("R1", f"{MOD}.ConnectionManager.{f.name}", "uninterruptible-await", "the reconnect loop suspends on something that is not raced against the closing event "
@@ -104,6 +107,8 @@ def check(src, rep):
             ts.on_await = on_await
         findings = ts.analyse(f.node)
         n_handles += len(ts.created)
+        for line_, what_ in ts.escaped:
+            rep.undecide(f"R1 {f.name} (line {line_}) hands task handles to code the typestate does not follow: {what_}")
         for line, var, srcx, what in findings:
             n_find += 1
             rep.violation("R1", f"{MOD}.ConnectionManager.{f.name}", f"task={srcx}", f"task is abandoned while it may still be running: {what}. Pending tasks accumulate per reconnect cycle and "
@@ -120,7 +125,7 @@ def check(src, rep):
             if isinstance(n, ast.Call) and isinstance(n.func, ast.Attribute) and n.func.attr in helpers and any(isinstance(a, ast.Starred) for a in n.args):
                 h = CM.methods.get(n.func.attr)
                 star = next(a for a in n.args if isinstance(a, ast.Starred))
-                from_wait = isinstance(star.value, ast.Name) and star.value.id in ts.sets
+                from_wait = isinstance(star.value, ast.Name) and star.value.id in ts.__dict__.get("wait_rest", set())
                 if h is not None and from_wait and _waits_on_possibly_empty(h.node):
                     n_find += 1
                     rep.violation("R1", f"{MOD}.ConnectionManager.{f.name}", "wait-on-empty-set", f"{n.func.attr}(*{star.value.id}) hands the possibly empty rest of a FIRST_COMPLETED wait to a helper "
@@ -135,7 +140,7 @@ def check(src, rep):
     # ---------------------------------------------------------------- R2: guarded connect
     # the factory call is reached only on paths that tested the closing event false *since the last suspension point*: field reads carry
     # the await-epoch in which they happened, so the closing test and the factory read must be in the same epoch
-    tps = Engine(M).run(tc)
+    tps = Engine(M, inline_async=True).run(tc)
     fac_paths = 0
     guarded = True
     why = "no dominating test of the closing event"
@@ -246,7 +251,10 @@ def check(src, rep):
             elif e[0] in ("mutate", "call", "callm") and str(e[2] if e[0] != "call" else e[1]).endswith("close"):
                 evs.append(("close-transport", e))
         kinds = [k for k, _ in evs]
-        if kinds.count("spawn-connect") != 1:
+        if kinds.count("spawn-connect") == 0:
+            bad5 += 1
+            rep.undecide("R5 no connection attempt recognised on an iteration path of connect_loop (the connect task is created in a form the path analysis does not follow)")
+        elif kinds.count("spawn-connect") != 1:
             bad5 += 1
             rep.violation("R5", f"{MOD}.ConnectionManager.connect_loop", "attempts-per-iteration", f"{kinds.count('spawn-connect')} connection attempts are started in one loop iteration", file, cl.node.lineno)
         had_conn = any(strip_epoch(g) == CONN and pol for g, pol, _ in p.guards)
